@@ -328,6 +328,18 @@ fn gen_chain(rng: &mut Rng, dt: &DType, cs: Option<&[u64]>, depth: u32, allow_sh
             } else if dt.numeric && es > 1 && k == 4 {
                 json.push("{\"name\":\"numcodecs.pcodec\",\"configuration\":{}}".into());
                 desc.push("pcodec".into());
+            } else if EXT_PACKBITS.load(std::sync::atomic::Ordering::Relaxed) && k == 5 && (dt.name.starts_with("uint") || dt.name == "float32" || dt.name == "complex64") {
+                // (only for the generators that opt in) a bit range / padding mode: lossless as long as every element has
+                // no bits outside `first_bit..=last_bit` of each component, which `gen_elem` and the fill check guarantee
+                let cb: u64 = if dt.name == "complex64" { 32 } else { es as u64 * 8 };
+                if rng.chance(1, 4) { json.push("{\"name\":\"packbits\"}".into()); desc.push("packbits".into()); }
+                else {
+                    let first = if rng.chance(1, 3) { 0 } else { rng.below(cb) };
+                    let last = if rng.chance(1, 2) { cb - 1 } else { rng.range(first, cb - 1) };
+                    let pad = *rng.pick(&["none", "first_byte", "last_byte"]);
+                    json.push(format!("{{\"name\":\"packbits\",\"configuration\":{{\"padding_encoding\":\"{}\",\"first_bit\":{},\"last_bit\":{}}}}}", pad, first, last));
+                    desc.push(format!("packbits.f{}.l{}.{}", first, last, pad));
+                }
             } else if (dt.name == "bool" || dt.numeric) && !dt.float && k == 5 {
                 json.push("{\"name\":\"packbits\"}".into());
                 desc.push("packbits".into());
@@ -349,6 +361,29 @@ fn gen_chain(rng: &mut Rng, dt: &DType, cs: Option<&[u64]>, depth: u32, allow_sh
         desc.push(d);
     }
     (format!("[{}]", json.join(",")), desc.join("|"), sharded, eff_inner)
+}
+
+/// a configuration whose array-to-bytes codec is `packbits` with a bit range (data confined to it, see `packbits_mask`): every
+/// component size, single- and multi-component data types, every padding mode, chunks of 2 dimensions so that regions
+/// are not contiguous in the chunk
+pub fn gen_packbits_cfg(rng: &mut Rng) -> Cfg {
+    let dts = dtypes();
+    loop {
+        let name = *rng.pick(&["uint8", "uint16", "uint64", "float32", "complex64"]);
+        let dt = dts.iter().find(|d| d.name == name).unwrap().clone();
+        let cb: u64 = if name == "complex64" { 32 } else { dt.es.unwrap() as u64 * 8 };
+        let first = if rng.chance(1, 4) { 0 } else { rng.range(1, cb - 1) };
+        let last = if rng.chance(1, 2) { cb - 1 } else { rng.range(first, cb - 1) };
+        let pad = *rng.pick(&["none", "first_byte", "last_byte"]);
+        let chain_desc = format!("packbits.f{}.l{}.{}", first, last, pad);
+        let fill = rng.pick(&dt.fills).clone();
+        if let Some(m) = packbits_mask(&chain_desc, &dt) { if fill.1.iter().zip(&m).any(|(x, k)| x & !k != 0) { continue; } }
+        let chunk = vec![rng.range(2, 5), rng.range(2, 5)];
+        let shape = vec![chunk[0] * rng.range(1, 2) + rng.below(2), chunk[1] * rng.range(1, 2)];
+        let codecs_json = format!("[{{\"name\":\"packbits\",\"configuration\":{{\"padding_encoding\":\"{}\",\"first_bit\":{},\"last_bit\":{}}}}}]", pad, first, last);
+        return Cfg { dtype: dt, fill, shape, grid: vec![(true, vec![chunk[0]]), (true, vec![chunk[1]])], regular_impl: true,
+            keys: ("default".into(), "/".into()), codecs_json, chain_desc, sharded: false, path: "/pb".into(), eff_inner: None };
+    }
 }
 
 pub fn gen_cfg(rng: &mut Rng, want_sharded: Option<bool>) -> Cfg {
@@ -384,12 +419,28 @@ pub fn gen_cfg(rng: &mut Rng, want_sharded: Option<bool>) -> Cfg {
             (j, d, false, None)
         };
         if want_sharded == Some(true) && !sharded { continue; }
+        // a fill value with bits outside a packbits bit range would not survive the codec
+        if let Some(m) = packbits_mask(&chain_desc, &dt) { if fill.1.iter().zip(&m).any(|(x, k)| x & !k != 0) { continue; } }
         let keys = (if rng.chance(2, 3) { "default" } else { "v2" }.to_string(), if rng.chance(1, 2) { "/" } else { "." }.to_string());
         let path = rng.pick(&["/", "/a", "/g/arr"]).to_string();
         return Cfg { dtype: dt, fill, shape, grid, regular_impl: all_fixed && rng.chance(3, 4), keys, codecs_json, chain_desc, sharded, path, eff_inner };
     }
 }
 
+/// generators that set this produce `packbits` with a bit range (and data confined to it)
+pub static EXT_PACKBITS: std::sync::atomic::AtomicBool = std::sync::atomic::AtomicBool::new(false);
+/// the bytes an element may use under a `packbits.f<first>.l<last>.<pad>` stage anywhere in the chain (native = little-endian components)
+pub fn packbits_mask(desc: &str, dt: &DType) -> Option<Vec<u8>> {
+    let i = desc.find("packbits.f")?;
+    let rest = &desc[i + "packbits.f".len()..];
+    let first: u32 = rest.split('.').next()?.parse().ok()?;
+    let last: u32 = rest.split(".l").nth(1)?.split('.').next()?.parse().ok()?;
+    let es = dt.es?;
+    let cbytes = if dt.name == "complex64" { 4 } else { es };
+    let hi: u128 = (1u128 << (last + 1)) - 1; let lo: u128 = (1u128 << first) - 1;
+    let m = ((hi & !lo) as u64).to_le_bytes();
+    Some((0..es).map(|i| m[i % cbytes]).collect())
+}
 pub fn gen_elem(rng: &mut Rng, cfg: &Cfg) -> Vec<u8> {
     if rng.chance(3, 10) { return cfg.fill.1.clone(); }
     match cfg.dtype.es {
@@ -398,6 +449,7 @@ pub fn gen_elem(rng: &mut Rng, cfg: &Cfg) -> Vec<u8> {
             if rng.chance(1, 6) { return vec![0; es]; }
             let mut b = rng.bytes(es);
             if rng.chance(1, 2) { for x in b.iter_mut().skip(1) { *x = 0; } }
+            if let Some(m) = packbits_mask(&cfg.chain_desc, &cfg.dtype) { for (x, k) in b.iter_mut().zip(&m) { *x &= k; } }
             b
         }
         None => {
